@@ -232,7 +232,7 @@ pub fn line_text(l: &J) -> String {
         "empty" => String::new(),
         "near" => "k=a v1".into(),
         "bigv" => "k= v=99999999999999999999".into(),
-        "longpre" => format!("{}k=a v=1", "#".repeat(l["n"].as_u64().unwrap() as usize)),
+        "longpre" => format!("{}k=a v=1", char::from_u32(l["c"].as_u64().unwrap_or(35) as u32).unwrap().to_string().repeat(l["n"].as_u64().unwrap() as usize)),
         o => panic!("line kind {}", o)
     }
 }
